@@ -171,6 +171,10 @@ def case_post(B, cfg):
         for k in range(n):
             B.eq('d(value - reference)/d x%d = 0  [%s]' % (k, full[k]),
                  d - const, 0.0, tol=1e-6)
+        # (label of the symbolic run when chi returns a plain number, e.g.
+        # -inf, where the reference is finite)
+        B.eq('value = reference (finite in the support)', d - const, 0.0,
+             tol=1e-6)
     # gradient
     try:
         score, sens = post.evaluateS1(xa)
